@@ -235,4 +235,74 @@ theorem lenDelim_length {bs p r : Bytes} (h : lenDelim bs = some (p, r)) :
       · simp only [Option.some.injEq, Prod.mk.injEq] at h
         rw [← h.1, ← h.2]; simp; omega
 
+/-! ## the generated `sovX` formula equals the byte count -/
+
+theorem log2_unique (m k : Nat) (h1 : 2 ^ k ≤ m) (h2 : m < 2 ^ (k + 1)) : Nat.log2 m = k := by
+  have hm : m ≠ 0 := by
+    have : 0 < 2 ^ k := Nat.pow_pos (by decide)
+    omega
+  apply Nat.le_antisymm
+  · have := (Nat.log2_lt hm).mpr h2; omega
+  · exact (Nat.le_log2 hm).mpr h1
+
+theorem bitLen_or_one (n : Nat) (hn : 1 ≤ n) : bitLen (n ||| 1) = bitLen n := by
+  have hn0 : n ≠ 0 := by omega
+  have hor0 : n ||| 1 ≠ 0 := by
+    have := Nat.left_le_or (n := n) (m := 1); omega
+  simp only [bitLen, hn0, hor0, if_false]
+  congr 1
+  let k := Nat.log2 n
+  have h1 : 2 ^ k ≤ n := Nat.log2_self_le hn0
+  have h2 : n < 2 ^ (k + 1) := Nat.lt_log2_self
+  apply log2_unique
+  · exact Nat.le_trans h1 Nat.left_le_or
+  · apply Nat.or_lt_two_pow h2
+    have : 2 ^ 1 ≤ 2 ^ (k + 1) := Nat.pow_le_pow_right (by decide) (by omega)
+    omega
+
+theorem bitLen_div128 (n : Nat) (hn : 128 ≤ n) : bitLen n = bitLen (n / 128) + 7 := by
+  have hn0 : n ≠ 0 := by omega
+  have hd0 : n / 128 ≠ 0 := by
+    have : 1 ≤ n / 128 := (Nat.le_div_iff_mul_le (by decide)).mpr (by omega)
+    omega
+  simp only [bitLen, hn0, hd0, if_false]
+  let k := Nat.log2 (n / 128)
+  have h1 : 2 ^ k ≤ n / 128 := Nat.log2_self_le hd0
+  have h2 : n / 128 < 2 ^ (k + 1) := Nat.lt_log2_self
+  have : Nat.log2 n = k + 7 := by
+    apply log2_unique
+    · rw [Nat.pow_add]
+      have := (Nat.le_div_iff_mul_le (by decide : 0 < 128)).mp h1
+      simpa using this
+    · have := (Nat.div_lt_iff_lt_mul (by decide : 0 < 128)).mp h2
+      rw [show k + 7 + 1 = (k + 1) + 7 by omega, Nat.pow_add]
+      simpa using this
+  omega
+
+theorem sovBits_eq_sov (n : Nat) : sovBits n = sov n := by
+  induction n using Nat.strongRecOn with
+  | _ n ih =>
+    rw [sov]
+    split
+    · next hlt =>
+      -- one byte
+      simp only [sovBits]
+      have hor : n ||| 1 < 2 ^ 7 := Nat.or_lt_two_pow (by simpa using hlt) (by decide)
+      have hor0 : n ||| 1 ≠ 0 := by
+        have := Nat.right_le_or (n := n) (m := 1); omega
+      have hl : Nat.log2 (n ||| 1) < 7 := (Nat.log2_lt hor0).mpr hor
+      simp only [bitLen, hor0, if_false]
+      omega
+    · next hge =>
+      have hn : 128 ≤ n := by omega
+      have hrec := ih (n / 128) (by omega)
+      rw [← hrec]
+      simp only [sovBits]
+      rw [bitLen_or_one n (by omega), bitLen_div128 n hn]
+      by_cases hq : 1 ≤ n / 128
+      · rw [bitLen_or_one (n / 128) hq]; omega
+      · have : 1 ≤ n / 128 := (Nat.le_div_iff_mul_le (by decide)).mpr (by omega)
+        omega
+
+
 end OtelVerif.Wire
